@@ -80,6 +80,35 @@ def run_bp(ctx, n):
     ctx.cov['oracle_violations'] = ctx.cov.get('oracle_violations', 0) + nor
     ctx.cov['input_distribution']['scen_sig_bp_dyn'] = {'cases': len(cases), 'programs': BPPROGS}
 
+QPROGS = ['rQrU/SS', 'rU/qQqU/SS', 'rQr/qU/S/S', 'rURrU/qQq/SS', 'qU/rU/rQrU/SSS']     # qsbr: threads unregister while online, possibly while an updater sleeps on the futex because of them
+def run_qsbr(ctx, n):
+    impl = G.build(ctx, 'scen_qsbr_dyn', ['-DDYNREG', '-DURCU_VERIF_RCU_QS_ACTIVE_ATTEMPTS=1'], 'scen_qsbr.c')
+    if not impl: return
+    cases = []
+    for prog in QPROGS[:3 if ctx.quick() else len(QPROGS)]:
+        th = [str(i) for i in range(prog.count('/') + 1)]
+        ups = [str(i) for i, tp in enumerate(prog.split('/')) if 'S' in tp]
+        for v in th:
+            if v in ups: continue
+            fl = lambda t: t + chr(ord('a') + int(t))
+            for p1 in range(1, 10):            # reader frozen online after p1 steps; the updater runs until it sleeps; the reader resumes and unregisters
+                for w1 in (30, 60, 120): cases.append((prog, fl(v) * p1 + fl(ups[0]) * w1 + fl(v) * 40 + '>' + ups[0]))
+            for point in range(1, 30, 2): cases.append((prog, parking(th, point, 1, v, 1)))
+    while len(cases) < n:
+        prog = ctx.rng.choice(QPROGS); th = [str(i) for i in range(prog.count('/') + 1)]
+        cases.append((prog, bursty(ctx.rng, th, lo=60, hi=500, flush=ctx.rng.choice([0.0, 0.05, 0.3]), means=(1, 3, 10, 30, 60))))
+    tail = ''.join(chr(ord('a') + i) + str(i) for i in range(6)) * 400
+    rs = run_many([[impl, p, s + tail] for p, s in cases], timeout=20); nor = 0
+    for (p, s), (rc, raw) in zip(cases, rs):
+        abnormal = [w for w in ('DEADLOCK', 'STEP LIMIT', 'ABORT', 'BUG ', 'TIMEOUT') if w in raw]
+        o = ('abnormal run (%s): an updater is never released although every reader it waited for has left or passed a quiescent state: %s' % (abnormal[0], raw[-200:])) if abnormal else G.qsbr_oracle(p, s, None, raw)
+        if o:
+            nor += 1
+            if nor <= 3: ctx.fail('oracle', 'grace-period oracle, qsbr with threads unregistering while online', o, concrete={'scenario': 'scen_qsbr_dyn', 'prog': p, 'schedule': s + tail, 'verdict': o})
+    ctx.cov['evaluations'] += len(cases); ctx.cov['distinct_nontrivial'] += sum(1 for r in rs if 'futex_wait' in r[1] or 'sleep' in r[1])
+    ctx.cov['oracle_violations'] = ctx.cov.get('oracle_violations', 0) + nor
+    ctx.cov['input_distribution']['scen_qsbr_dyn'] = {'cases': len(cases), 'programs': QPROGS}
+
 def run(ctx):
     ctx.cov['source_hash'] = source_hash(FILES)
     prove(ctx)
@@ -87,6 +116,7 @@ def run(ctx):
     run_dyn(ctx, 'scen_gp_dyn_memb', [], n)
     run_dyn(ctx, 'scen_gp_dyn_mb', ['-DFLAVOR_MB'], n // 2)
     run_bp(ctx, n // 2)
+    run_qsbr(ctx, n // 2)
     from props import C15seq
     C15seq.run(ctx)
     return finish(ctx, trusted=TRUSTED, rule='threads register and unregister (scheduled operations) while 2-3 grace periods run: targeted schedules (reader inside a section while the updater waits, a third thread '
@@ -94,6 +124,9 @@ def run(ctx):
 def replay(ctx, rp):
     f = rp.get('failing_input') or {}
     if not f or 'prog' not in f: print(json.dumps(f, indent=1)); return run(ctx)
+    if f['scenario'] == 'scen_qsbr_dyn':
+        impl = G.build(ctx, 'scen_qsbr_dyn', ['-DDYNREG', '-DURCU_VERIF_RCU_QS_ACTIVE_ATTEMPTS=1'], 'scen_qsbr.c'); rc, out = run_many([[impl, f['prog'], f['schedule']]], timeout=20)[0]
+        print(out[-3000:]); o = G.qsbr_oracle(f['prog'], f['schedule'], None, out); print('verdict:', o or ('stuck' if 'DEADLOCK' in out else 'no violation')); return 1 if (o or 'DEADLOCK' in out) else 0
     if f['scenario'] == 'scen_sig_bp_dyn':
         impl = G.build(ctx, 'scen_sig_bp_dyn', ['-DFLAVOR_BP'], 'scen_sig.c'); rc, out = run_many([[impl, f['prog'], f['schedule']]], timeout=20)[0]
         print(out[-3000:]); o = G.oracle(f['prog'], f['schedule'], None, out); print('verdict:', o or 'no violation'); return 1 if o else 0
